@@ -128,7 +128,7 @@ def build_tasks(quick):
         key = (lead, name.split("<")[0].split("_")[0])
         if key not in seen:
             seen.add(key); reps.append((name, sh))
-    seconds = reps if quick else sts
+    seconds = reps
     firsts = reps if quick else sts
     tasks = [(a[0], a[1], b[0], b[1]) for a in firsts for b in seconds]
     # block contexts: every first statement that may stand in a block, followed by the boundary-sensitive second statements
